@@ -328,6 +328,33 @@ def main():
         log("[%s] %d behaviours generated by TLC from MC_Node for replay on the real code (%.0fs)" % (pid, nscripts, time.time() - t1))
         if nscripts:
             gen_drivers.append({"args": ["replay", "--scripts", spath], "shards": 1})
+    if P.get("scripts_exh") and not replay:
+        # EVERY behaviour of an exhaustive scope of MC_Node (not a sample): printed by TLC, replayed on the real code
+        sx = P["scripts_exh"]
+        t1 = time.time()
+        xenv = {"MC_SCRIPTS": "1"}
+        xenv.update(sx.get("env", {}).get(tier, {}))
+        rc, out = tlc("MC_Node", sx["cfg"][tier], work, workers=sx.get("workers", 6), timeout=sx.get("timeout", 1500), xmx="6g", extra_env=xenv)
+        if "is violated" in out or rc != 0:
+            tool_errors.append("exhaustive script generation: TLC rc=%s %s" % (rc, out[-800:]))
+        nshards = sx.get("shards", {}).get(tier, 4)
+        files = [open(os.path.join(work, "scripts-exh-%d.ndjson" % k), "w") for k in range(nshards)]
+        nx = 0
+        for line in out.splitlines():
+            m = re.match(r'<<"SCRIPT", "(.*)">>\s*$', line)
+            if m:
+                files[nx % nshards].write(m.group(1).encode("utf8").decode("unicode_escape") + "\n")
+                nx += 1
+        for f in files:
+            f.close()
+        ev["model_scripts_exhaustive"] = nx
+        stx = parse_tlc_stats(out)
+        ev["mc"].append({"module": "MC_Node", "cfg": sx["cfg"][tier], "rc": rc, "stats": stx, "wall_s": round(time.time() - t1, 1),
+                         "what": sx.get("what", "") + " - every behaviour printed as a script (%d) and replayed on the real code" % nx})
+        log("[%s] %d behaviours (ALL of scope %s) generated by TLC for replay on the real code (%.0fs)" % (pid, nx, sx["cfg"][tier], time.time() - t1))
+        if nx:
+            for k in range(nshards):
+                gen_drivers.append({"args": ["replay", "--scripts", os.path.join(work, "scripts-exh-%d.ndjson" % k)], "shards": 1})
 
     # ---------------------------------------------------------------- (H) drivers
     jobs = []
@@ -487,7 +514,8 @@ def main():
         "model_states": mc_states,
         "model_transitions": mc_trans,
         "impl_events": ev["events"],
-        "model_behaviours_replayed_on_impl": ev.get("model_scripts", 0),
+        "model_behaviours_replayed_on_impl": ev.get("model_scripts", 0) + ev.get("model_scripts_exhaustive", 0),
+        "model_behaviours_exhaustive_scope_replayed": ev.get("model_scripts_exhaustive", 0),
         "impl_calls_validated": ev["calls"],
         "conformance_divergences": ev["divergences"],
         "model_transfers": ev["divergences"] == 0,
